@@ -55,4 +55,27 @@ PROPS = {
         'technique': 'Coq proof (induction on fuel with a semantic invariant; injective-laying relation for arrays) + differential testing of core.Match against the extracted model and brute-force spec',
         'assumptions': ['JSON numbers are integers (float64 integral values)', 'Go map iteration order does not affect the result multiset on the fragment (proved for the model: results characterised as a set)'],
     },
+    'C02': {
+        'props_file': 'props/C02.v',
+        'domains': [
+            {'name': 'loc-search', 'quick': 500, 'thorough': 20000, 'thorough_shards': 10},
+        ],
+        'spec_ops': ['search', 'getfact', 'getrule'],
+        'corr': 'corr.loc (CorrLoc.check_loc: op-by-op replay of Location histories through State/Location models; reads judged against the index-free linear search over the same fact map)',
+        'rule': 'loc-search: histories of 20-45 AddFact/RemFact/GetFact/SearchFacts (few rules) over 3-5 ids (overwrites and re-adds frequent), 1-2 '
+                'locations of either state kind on MemStorage, patterns derived from stored facts (variables, dropped keys, array variables), blind spots '
+                '(k! keys, 1030-byte strings, property-variable patterns, empty patterns), reloads; non-trivial = at least 3 distinct (op, outcome) kinds; '
+                'distinct by hash of inputs',
+        'refuted': ['no_terms_refuted (D8)', 'propvar_under_bang_refuted (D9)'],
+        'level_text': 'Coq theorems over the executable model of IndexedState/LinearState/TermIndex: index_superset_invariant (every reachable state, any history, '
+                      'one storage fault), search_exact_reachable (indexed search = match against every stored fact, composed from the index invariant, the '
+                      'term-subset key lemma and matcher soundness/completeness), get_last_write, ids_kept_and_add_visible (both state kinds). Tie to the code: '
+                      'observed Location histories (both state kinds) replayed op by op through the extracted model; every observed read additionally compared with the '
+                      'linear (index-free) search of the model state.',
+        'level_note': 'Trusted: Coq kernel, extraction, OCaml glue, Go harness. search_exact is stated for instants at which nothing stored has expired (expiry: C07) and '
+                      'for patterns with a term and no property variable (D8/D9 are the complement, listed as known findings). Generated-id freshness is an assumption on crypto/rand.',
+        'technique': 'Coq invariant proof over operation histories + refinement to linear search; differential replay of Location histories',
+        'assumptions': ['UUIDs returned for omitted ids are fresh (taken from the trace; distinctness is checked by the harness only)',
+                        'encoding/json round-trips the JSON fragment faithfully'],
+    },
 }
